@@ -452,6 +452,10 @@ pub fn trace_on() -> bool {
 /// (so that packets can be addressed to it consistently, by physical address or by assigned EID)
 /// set by the coverage-guided explorer: perform the operations, print nothing
 pub static QUIET: std::sync::atomic::AtomicBool = std::sync::atomic::AtomicBool::new(false);
+/// the buffer the previous Process / Encode operation of this case left behind: callers reuse one buffer for
+/// successive packets, so the prior contents of a buffer are typically an earlier (possibly longer) packet
+pub static LAST_BUF: std::sync::Mutex<Vec<u8>> = std::sync::Mutex::new(Vec::new());
+pub fn last_buf() -> Vec<u8> { LAST_BUF.lock().map(|b| b.clone()).unwrap_or_default() }
 pub static HINT: std::sync::atomic::AtomicU32 = std::sync::atomic::AtomicU32::new(0);
 pub fn hint() -> (u8, u8, u8) {
     let h = HINT.load(std::sync::atomic::Ordering::Relaxed);
@@ -551,6 +555,10 @@ impl<'c, 'm> Session<'c, 'm> {
             }
         }
         self.log(&op, &obs);
+        match &obs {
+            Obs::ProcOk(_, _, _, _, b) | Obs::ProcErr(_, _, b) | Obs::Enc(_, b) => { if let Ok(mut l) = LAST_BUF.lock() { *l = b.clone(); } }
+            _ => {}
+        }
         let (er, es) = self.eids();
         let a = HINT.load(std::sync::atomic::Ordering::Relaxed) & 0xFF;
         HINT.store(a | (er as u32) << 8 | (es as u32) << 16, std::sync::atomic::Ordering::Relaxed);
@@ -616,6 +624,7 @@ pub fn with_session<F: FnOnce(&mut Session)>(id: u64, stratum: &str, cfg: &Cfg, 
     let mut twin = MCTPSMBusContext::new(cfg.addr, &cfg.msg_types, &vids);
     let mut s = Session { ctx: &mut ctx, alt: &alt, twin: &mut twin, twin_on: false, alt_on: true, out: String::new(), nops: 0, nvend: cfg.vendor_ids.len() };
     HINT.store(cfg.addr as u32, std::sync::atomic::Ordering::Relaxed);
+    if let Ok(mut l) = LAST_BUF.lock() { l.clear(); }
     let _ = writeln!(s.out, "C {} {}", id, stratum);
     let _ = write!(s.out, "G {} {} {}", cfg.addr, hex(&cfg.msg_types), cfg.vendor_ids.len());
     for (f, d, n) in &cfg.vendor_ids {
